@@ -694,8 +694,18 @@ func RRangeFlush(c *core.Ctx) {
 		}
 		return true
 	})
-	var visit func(list []ast.Stmt)
-	check := func(list []ast.Stmt) {
+	var visit func(list []ast.Stmt, tails [][]ast.Stmt)
+	isReset := func(st ast.Stmt) bool {
+		if as, ok := st.(*ast.AssignStmt); ok && len(as.Lhs) == 1 && len(as.Rhs) == 1 {
+			if id, ok := as.Lhs[0].(*ast.Ident); ok && info.ObjectOf(id) == inRange {
+				if tv, ok := info.Types[as.Rhs[0]]; ok && tv.Value != nil && tv.Value.String() == "false" {
+					return true
+				}
+			}
+		}
+		return false
+	}
+	check := func(list []ast.Stmt, tails [][]ast.Stmt) {
 		flushAt := -1
 		for i, st := range list {
 			es, ok := st.(*ast.ExprStmt)
@@ -729,6 +739,18 @@ func RRangeFlush(c *core.Ctx) {
 			}
 		}
 		if !reset {
+			// ... or unconditionally right after the statement the flush is nested in
+			// (`if !scanOnly { …flush… }; inRange = false`): what follows an enclosing
+			// statement in its own list runs on every path that leaves the flush
+			for _, tail := range tails {
+				for _, st := range tail {
+					if isReset(st) {
+						reset = true
+					}
+				}
+			}
+		}
+		if !reset {
 			// the other idiom: `if inRange { inRange = false; … flush … }` — reset first, inside the same guarded branch
 			fp := list[flushAt].Pos()
 			for _, g := range guards {
@@ -752,23 +774,32 @@ func RRangeFlush(c *core.Ctx) {
 		c.Check(reset, fmt.Sprintf("scanCharSet / flush #%d of the pending range start resets inRange", n), list[flushAt].Pos(),
 			"chPrev is added to the class here but inRange stays true: the next plain member is read as the end of a range starting at the stale chPrev")
 	}
-	visit = func(list []ast.Stmt) {
-		check(list)
-		for _, st := range list {
+	visit = func(list []ast.Stmt, tails [][]ast.Stmt) {
+		check(list, tails)
+		for i, st := range list {
+			// statements after st in this list, as long as st is a plain `if` without an else that
+			// could skip them (an if/else or a switch still falls through to what follows it)
+			inner := tails
+			switch st.(type) {
+			case *ast.IfStmt, *ast.BlockStmt, *ast.SwitchStmt:
+				inner = append(append([][]ast.Stmt(nil), tails...), list[i+1:])
+			case *ast.ForStmt, *ast.RangeStmt:
+				inner = nil // a new iteration: what follows the loop is not "right after"
+			}
 			ast.Inspect(st, func(x ast.Node) bool {
 				switch b := x.(type) {
 				case *ast.BlockStmt:
-					visit(b.List)
+					visit(b.List, inner)
 					return false
 				case *ast.CaseClause:
-					visit(b.Body)
+					visit(b.Body, inner)
 					return false
 				}
 				return true
 			})
 		}
 	}
-	visit(fd.Body.List)
+	visit(fd.Body.List, nil)
 	if n == 0 {
 		c.Anchor("statement lists that flush chPrev")
 	}
